@@ -11,9 +11,12 @@ UNITS = [
     Unit(uid="U25.2.split", prop="C25", harness=H, entry="h_split", mode="dfcc", defines=["U25_2"],
          functions=["od_ec_decode_cdf_q15", "od_ec_dec_normalize", "svt_od_ec_encode_cdf_q15", "od_ec_encode_q15",
                     "od_ec_enc_normalize"],
-         loop_contracts=1, unwind=18, min_obligations=100, cover_functions=["od_ec_decode_cdf_q15"], timeout=1200, mem_gb=16, backend="cadical",
+         loop_contracts=1, unwind=18, min_obligations=100, cover_functions=[], timeout=1200, mem_gb=16, backend="cadical",
          slice_spec=[{"kind": "annot", "file": DECH, "func_re": r"^static int od_ec_decode_cdf_q15\(",
                       "loop": "do {", "name": "symbol_search", "text": "VERIF_LOOP_SYMBOL_SEARCH"}],
+         assumptions=["reachability guard not applied to this unit: under --dfcc without an enforced contract the cover run "
+                      "reports blocks of an unreachable duplicate of the function; liveness of the loop step was "
+                      "shown instead by a mutation (`c < v` -> `c <= v` fails loop_invariant_step)"],
          what="for every range, window value, valid table and alphabet size: decode then encode of the decoded "
               "symbol agree on the new range and the code point lies in the encoder's sub-interval"),
     Unit(uid="U25.2.bool", prop="C25", harness=H, entry="h_bool", mode="plain", defines=["U25_2B"],
